@@ -62,8 +62,10 @@ func HistString(h []Event) string {
 	return strings.Join(parts, " ")
 }
 
+var errFailedUpdate = fmt.Errorf("updater failed on purpose")
+
 // IsServer reports whether the event talks to the server.
-func (e Event) IsServer() bool { return e.K != "e" && e.K != "un" && e.K != "re" }
+func (e Event) IsServer() bool { return e.K != "e" && e.K != "un" && e.K != "re" && e.K != "fu" }
 
 // Config selects the world knobs of one execution.
 type Config struct {
@@ -498,6 +500,7 @@ func (r *Runner) Run(sc *Scenario, cfg Config, h []Event) *Exec {
 	x := &Exec{Sc: sc, Cfg: cfg, Hist: h, R: r, Data: map[string]any{}}
 	x.ctx, x.cancel = context.WithCancel(context.Background())
 	r.cur = x
+	Facts = map[string]bool{}
 	if r.Prepare != nil {
 		r.Prepare(x)
 	}
@@ -744,6 +747,33 @@ func (x *Exec) step(e Event) Step {
 		x.recordCreated(rep, ubefore, ucp)
 		if err != nil && !panicked {
 			x.violate("undo-error", e.K+"-error:"+NormErr(err.Error()), fmt.Sprintf("client %d: %v", e.C, err))
+		}
+	case "fu":
+		// a failed update: the updater edits, then returns an error; nothing may
+		// change, and the document re-clones its working copy from the root
+		if !rep.Attached {
+			st.NoEffect = true
+			break
+		}
+		if n := len(x.Steps); n > 0 && x.Steps[n-1].Ev.K == "fu" && x.Steps[n-1].Ev.C == e.C {
+			st.NoEffect = true // two in a row add nothing
+			break
+		}
+		before := rep.Doc.Marshal()
+		nb := len(rep.Doc.CreateChangePack().Changes)
+		var uerr error
+		uerr, panicked = guard(func() error {
+			return rep.Doc.Update(func(r *json.Object, p *presence.Presence) error {
+				r.SetInteger("zz", 1)
+				return errFailedUpdate
+			})
+		})
+		if panicked {
+			err = uerr
+		} else if uerr == nil {
+			x.violate("failed-update", "failed-update:accepted", "an updater that returned an error was accepted")
+		} else if after := rep.Doc.Marshal(); after != before || len(rep.Doc.CreateChangePack().Changes) != nb {
+			x.violate("failed-update", "failed-update:changed", fmt.Sprintf("before %s\nafter  %s", before, after))
 		}
 	case "evict":
 		x.R.W.PurgeSnapshotCache()
